@@ -8,8 +8,10 @@ package props
 import (
 	"encoding/json"
 	"fmt"
+	"net/rpc"
 	"os"
 	"path/filepath"
+	"strings"
 	"sync"
 	"testing"
 	"time"
@@ -20,6 +22,7 @@ import (
 	"github.com/Trendyol/go-dcp/membership"
 	"github.com/Trendyol/go-dcp/metadata"
 	"github.com/Trendyol/go-dcp/models"
+	"github.com/Trendyol/go-dcp/servicediscovery"
 	"github.com/Trendyol/go-dcp/stream"
 	"github.com/Trendyol/go-dcp/tracing"
 	"github.com/asaskevich/EventBus"
@@ -727,6 +730,140 @@ func init() {
 			return "bad scenario: " + err.Error()
 		}
 		d, _ := c10ExecCB(sc)
+		return d
+	})
+}
+
+// ---------- a follower takes the leader's assignments through the real RPC handler ----------
+// kubernetesHa: the leader pushes (member number, group size) to each follower's RPC server (Handler.Rebalance). Whatever has
+// happened to the follower's own handle on the leader meanwhile (assigned, lost after failed pings, assigned again), a pushed
+// assignment takes effect: the follower's discovery object computes its share from the LAST one pushed - otherwise it keeps
+// streaming the share of a group that no longer exists (overlap and gap at once).
+type c09PushStep struct {
+	Op string `json:"op"` // push | assign_leader | lose_leader
+	M  int    `json:"m,omitempty"`
+	T  int    `json:"t,omitempty"`
+}
+
+type c09Push struct {
+	N     int           `json:"n"`
+	Steps []c09PushStep `json:"steps"`
+}
+
+func c09ExecPush(sc c09Push) string {
+	cfg := laConfig()
+	cfg.Dcp.Group.Membership.Type = membership.KubernetesHaMembershipType
+	bus := EventBus.New()
+	sd := servicediscovery.NewServiceDiscovery(cfg, bus)
+	disc := stream.NewVBucketDiscovery(nil, cfg, sc.N, bus)
+	defer disc.Close()
+	me := &models.Identity{IP: "127.0.0.1", Name: "follower", ClusterJoinTime: 2}
+	leader := &models.Identity{IP: "127.0.0.1", Name: "leader", ClusterJoinTime: 1}
+	var port int
+	var srvOK bool
+	var srv servicediscovery.Server
+	defer func() {
+		if srvOK {
+			func() { defer func() { _ = recover() }(); srv.Shutdown() }()
+		}
+	}()
+	for try := 0; try < 20 && !srvOK; try++ {
+		func() {
+			defer func() { _ = recover() }()
+			port = freePort()
+			srv = servicediscovery.NewServer(port, me, sd)
+			srv.Listen()
+			srvOK = true
+		}()
+	}
+	if !srvOK {
+		return "HARNESS: no RPC server"
+	}
+	cl, err := rpc.Dial("tcp", fmt.Sprintf("127.0.0.1:%d", port))
+	if err != nil {
+		return "HARNESS: cannot reach the follower's RPC server: " + err.Error()
+	}
+	defer cl.Close()
+	var last *c09PushStep
+	for i, st := range sc.Steps {
+		st := st
+		switch st.Op {
+		case "assign_leader":
+			sd.AssignLeader(servicediscovery.NewService(&fakeFollower{name: "leader", rpcBad: map[int]bool{}}, "leader", 1))
+		case "lose_leader":
+			sd.RemoveLeader() // what the heart-beat does after a failed ping of the leader and a failed re-registration
+		case "push":
+			var reply bool
+			if err := cl.Call("Handler.Rebalance", servicediscovery.Rebalance{From: leader, MemberNumber: st.M, TotalMembers: st.T}, &reply); err != nil {
+				return fmt.Sprintf("HARNESS: Rebalance RPC failed: %v", err)
+			}
+			last = &st
+			var got []uint16
+			want := c09Discovery(sc.N, st.T, st.M)
+			// (the membership object learns the numbering from the bus a moment after the RPC has been answered)
+			for dl := time.Now().Add(3 * time.Second); ; time.Sleep(time.Millisecond) {
+				if ok, _ := within(3*time.Second, func() { got = disc.Get() }); !ok {
+					return fmt.Sprintf("step %d: the leader pushed %d/%d to the follower, its discovery object still has no numbering", i, st.M, st.T)
+				}
+				if c09Range(got) == c09Range(want) || time.Now().After(dl) {
+					break
+				}
+			}
+			if c09Range(got) != c09Range(want) {
+				return fmt.Sprintf("step %d: the leader pushed %d/%d to the follower (steps so far %v); the follower computes its share as %s, member %d of %d owns %s", i, st.M, st.T, sc.Steps[:i+1], c09Range(got), st.M, st.T, c09Range(want))
+			}
+		}
+	}
+	_ = last
+	return ""
+}
+
+func TestC09_FollowerTakesAssignments(t *testing.T) {
+	rapid.Check(t, func(rt *rapid.T) {
+		sc := c09Push{N: rapid.SampledFrom([]int{8, 64, 128, 1024}).Draw(rt, "n")}
+		lost := false
+		pushedWithout := false
+		for i, k := 0, rapid.IntRange(2, 8).Draw(rt, "steps"); i < k; i++ {
+			switch rapid.IntRange(0, 4).Draw(rt, "kind") {
+			case 0:
+				sc.Steps = append(sc.Steps, c09PushStep{Op: "assign_leader"})
+				lost = false
+			case 1:
+				sc.Steps = append(sc.Steps, c09PushStep{Op: "lose_leader"})
+				lost = true
+			default:
+				tt := rapid.IntRange(2, 8).Draw(rt, "t")
+				sc.Steps = append(sc.Steps, c09PushStep{Op: "push", M: rapid.IntRange(2, tt).Draw(rt, "m"), T: tt})
+				pushedWithout = pushedWithout || lost
+			}
+		}
+		journal("C09", "c09push", sc)
+		d := c09ExecPush(sc)
+		journalDone()
+		if strings.HasPrefix(d, "HARNESS") {
+			rt.Skip(d)
+		}
+		if d != "" {
+			violation(rt, "C09", "c09push", sc, "%s", d)
+		}
+		labs := []string{"follower_push_cases"}
+		if pushedWithout {
+			labs = append(labs, "assignment_pushed_while_the_follower_has_no_leader_handle")
+		}
+		record("C09", sc, pushedWithout, labs...)
+	})
+}
+
+func init() {
+	registerReplay("c09push", func(raw json.RawMessage) string {
+		var sc c09Push
+		if err := json.Unmarshal(raw, &sc); err != nil {
+			return err.Error()
+		}
+		d := c09ExecPush(sc)
+		if strings.HasPrefix(d, "HARNESS") {
+			return ""
+		}
 		return d
 	})
 }
